@@ -140,6 +140,12 @@ const PIECES: &[&str] = &[
     "<!--",
     "]]>",
     "\0",
+    "\u{b}",
+    "\u{c}",
+    "\u{8}",
+    "\u{1b}",
+    "\u{7f}",
+    "\u{85}",
     "😀",
     "𝒳",
     "'",
